@@ -33,6 +33,11 @@
       (`stepB_shutting_mono`), `shutFlag` records that a shutdown past its CAS has set it;
     * the lock group is unconditional: no client ever owns `weight_used` across a schedule point;
     * `guards`: the read guards of `get_ref` (`GuardInv`); `stepB_storeShard`: the shard map never changes.
+
+  Extension (multi-key reads `Req.mget`): the positions `.mgetStore` / `.mgetPool` hold no lock, no guard, no id and no
+  weight; `CTrans.mgetStep` / `CTrans.mgetFin` (one key's `store.get` hit / miss and `pool.add`, each followed by
+  `mgetNext`: `mgetNext_spec`, `mgetNext_ctrans`) touch only the statistics, the pool and the buffer queue; the first
+  action of a `mget` is `CTrans.startPlain` (→ `.mgetStore`, which is `CPc.plain`) or `CTrans.finish`.
 -/
 import CachedModel.LayerB
 import CachedProofs.Lemmas.Weights
@@ -568,7 +573,8 @@ theorem sweeperAct_trans {b b' : BState} {v : Option Nat} (h : sweeperAct b v = 
 
 /-- client positions reached from `start` that carry nothing the invariant talks about -/
 def CPc.plain : CPc → Prop
-  | .delMark _ | .getStore _ | .weightRead | .upUpdate _ _ _ _ _ | .refStore _ | .shutCas => True
+  | .delMark _ | .getStore _ | .weightRead | .upUpdate _ _ _ _ _ | .refStore _ | .shutCas
+  | .mgetStore _ _ _ _ => True
   | _ => False
 
 /-- the ways the tail of `put_or_update` can end -/
@@ -590,6 +596,43 @@ theorem upAfterIndex_spec (b : BState) (i id : Nat) (uw : Option Int) :
 def CPc.isRefPool : CPc → Bool
   | .refPool _ _ => true
   | _ => false
+
+/-- `Pool::add` touches the pool, the buffer queue and the statistics only. -/
+theorem poolAdd_frame {g g1 : State} {h : Nat} {o o' : Oracle} (hp : poolAdd g h o = .ok (g1, o')) :
+    g1 = { g with pool := g1.pool, bufq := g1.bufq, stats := g1.stats } := by
+  unfold poolAdd at hp
+  split at hp
+  · cases hp
+  · split at hp
+    · cases hp
+    · simp only [] at hp
+      split at hp
+      · simp only [Except.ok.injEq, Prod.mk.injEq] at hp
+        obtain ⟨rfl, _⟩ := hp
+        unfold acceptBuffer
+        split <;> rfl
+      · simp only [Except.ok.injEq, Prod.mk.injEq] at hp
+        obtain ⟨rfl, _⟩ := hp
+        rfl
+
+/-- the client stands inside a multi-key read (`multi_get` or one of the iterators) -/
+def CPc.isMget : CPc → Bool
+  | .mgetStore _ _ _ _ | .mgetPool _ _ _ _ _ => true
+  | _ => false
+
+/-- the ways a multi-key read moves on after a key: the call returns, or (flag not set, a key left) it stands at the
+    store lookup of the next key with the results gathered so far -/
+theorem mgetNext_spec (b : BState) (i : Nat) (ks : List Nat) (acc : List (Option Nat)) (iter : Bool) :
+    (∃ out, mgetNext b i ks acc iter = finishCall b i out) ∨
+    (∃ k rest, ks = k :: rest ∧ b.g.shutting = false ∧
+      mgetNext b i ks acc iter = setClient b i (.mgetStore k rest acc iter)) := by
+  unfold mgetNext
+  split
+  · exact Or.inl ⟨_, rfl⟩
+  · split
+    · exact Or.inl ⟨_, rfl⟩
+    · rename_i hsh
+      exact Or.inr ⟨_, _, rfl, by simpa using hsh, rfl⟩
 
 /-- One action of client `i`, as a relation. -/
 inductive CTrans (b : BState) (i : Nat) : BState → Prop where
@@ -645,6 +688,24 @@ inductive CTrans (b : BState) (i : Nat) : BState → Prop where
       CTrans b i (setClient { b with g := { b.g with adm := { b.g.adm with used := 0 } } } i .shutAfClear)
   | shutTtlClear : b.cl[i]? = some .shutTtlClear → b.ttlOwner = none →
       CTrans b i (finishCall { b with g := { b.g with ttl := [] } } i .none)
+  /-- a multi-key read goes on: `store.get` of a key hits (→ `pool.add`) or misses (→ next key), or `pool.add` is done
+      (→ next key); only the statistics, the pool and the buffer queue are touched -/
+  | mgetStep (pc pc' g') : b.cl[i]? = some pc → pc.isMget = true → pc'.isMget = true →
+      g' = { b.g with pool := g'.pool, bufq := g'.bufq, stats := g'.stats } →
+      CTrans b i (setClient { b with g := g' } i pc')
+  /-- a multi-key read returns after the `store.get` miss or the `pool.add` of its last key (or with the flag set) -/
+  | mgetFin (pc g' out) : b.cl[i]? = some pc → pc.isMget = true →
+      g' = { b.g with pool := g'.pool, bufq := g'.bufq, stats := g'.stats } →
+      CTrans b i (finishCall { b with g := g' } i out)
+
+/-- moving on to the next key of a multi-key read (or returning) is a client transition -/
+theorem mgetNext_ctrans {b : BState} {i : Nat} {pc : CPc} {g' : State} {ks : List Nat} {acc : List (Option Nat)}
+    {iter : Bool} (hpc : b.cl[i]? = some pc) (hm : pc.isMget = true)
+    (hg : g' = { b.g with pool := g'.pool, bufq := g'.bufq, stats := g'.stats }) :
+    CTrans b i (mgetNext { b with g := g' } i ks acc iter) := by
+  rcases mgetNext_spec { b with g := g' } i ks acc iter with ⟨out, e⟩ | ⟨k, rest, _, _, e⟩ <;> rw [e]
+  · exact .mgetFin _ _ _ hpc hm hg
+  · exact .mgetStep _ _ _ hpc hm rfl hg
 
 theorem clientAct_trans {b b' : BState} {i : Nat} {o o' : Oracle} (h : clientAct b i o = .ok (b', o')) :
     CTrans b i b' := by
@@ -666,12 +727,17 @@ theorem clientAct_trans {b b' : BState} {i : Nat} {o o' : Oracle} (h : clientAct
         · exact .finish _ _ hpc rfl
         · exact .finish _ _ hpc rfl
         · exact .startPlain _ _ hpc trivial
+        · exact .finish _ _ hpc rfl
       · cases r <;> simp only [] at h
         · split at h
           all_goals simp only [Except.ok.injEq, Prod.mk.injEq] at h; obtain ⟨rfl, rfl⟩ := h
           · exact .finish _ _ hpc rfl
           · exact .startPut _ _ _ _ hpc (by omega)
         all_goals simp only [Except.ok.injEq, Prod.mk.injEq] at h; obtain ⟨rfl, rfl⟩ := h
+        case mget ks iter =>
+          rcases mgetNext_spec b i ks [] iter with ⟨out, e⟩ | ⟨k, rest, _, _, e⟩ <;> rw [e]
+          · exact .finish _ _ hpc rfl
+          · exact .startPlain _ _ hpc trivial
         all_goals exact .startPlain _ _ hpc trivial
     | putPresent k v w ttl =>
       simp only [] at h
@@ -862,6 +928,22 @@ theorem clientAct_trans {b b' : BState} {i : Nat} {o o' : Oracle} (h : clientAct
       · rename_i ha
         simp only [Except.ok.injEq, Prod.mk.injEq] at h; obtain ⟨rfl, rfl⟩ := h
         exact .shutTtlClear hpc (by simpa using ha)
+    | mgetStore k ks acc iter =>
+      simp only [] at h
+      split at h
+      · split at h
+        all_goals simp only [Except.ok.injEq, Prod.mk.injEq] at h; obtain ⟨rfl, rfl⟩ := h
+        · exact .mgetStep _ _ _ hpc rfl rfl rfl
+        · exact mgetNext_ctrans hpc rfl rfl
+      · simp only [Except.ok.injEq, Prod.mk.injEq] at h; obtain ⟨rfl, rfl⟩ := h
+        exact mgetNext_ctrans hpc rfl rfl
+    | mgetPool k v ks acc iter =>
+      simp only [] at h
+      split at h
+      · rename_i g1 o1 hp
+        simp only [Except.ok.injEq, Prod.mk.injEq] at h; obtain ⟨rfl, rfl⟩ := h
+        exact mgetNext_ctrans hpc rfl (poolAdd_frame hp)
+      · cases h
 
 /-! ## 3  frame facts -/
 
@@ -887,24 +969,6 @@ theorem applyEvict_store (g : State) (e : Evicted) : (applyEvict g e).store = g.
   · rename_i h
     have h' : g.store.get? k = none := by simpa [AMap.contains] using h
     simp [AMap.del_of_get?_none h']
-
-/-- `Pool::add` touches the pool, the buffer queue and the statistics only. -/
-theorem poolAdd_frame {g g1 : State} {h : Nat} {o o' : Oracle} (hp : poolAdd g h o = .ok (g1, o')) :
-    g1 = { g with pool := g1.pool, bufq := g1.bufq, stats := g1.stats } := by
-  unfold poolAdd at hp
-  split at hp
-  · cases hp
-  · split at hp
-    · cases hp
-    · simp only [] at hp
-      split at hp
-      · simp only [Except.ok.injEq, Prod.mk.injEq] at hp
-        obtain ⟨rfl, _⟩ := hp
-        unfold acceptBuffer
-        split <;> rfl
-      · simp only [Except.ok.injEq, Prod.mk.injEq] at hp
-        obtain ⟨rfl, _⟩ := hp
-        rfl
 
 /-- The access consumer touches the buffer queue, the sketch and its own liveness flag only. -/
 theorem consumerStep_frame {g g1 : State} {o o' : Oracle} {out : Out} (hc : consumerStep g o = .ok (g1, out, o')) :
@@ -975,6 +1039,8 @@ theorem ctrans_frame {b b' : BState} {i : Nat} (h : CTrans b i b') :
   case getPool hp => rw [poolAdd_frame hp]; simp [finishCall]
   case refPool hp => rw [poolAdd_frame hp]; simp [finishCall]
   case shutLocal hg => rw [hg]; simp [setClient]
+  case mgetStep hg => rw [hg]; simp [setClient]
+  case mgetFin hg => rw [hg]; simp [finishCall]
   case upAfterSame => rcases upAfterIndex_spec b i _ _ with ⟨_, h⟩ | ⟨_, _, h⟩ | h <;> rw [h] <;> simp [finishCall, setClient, spotFinish]
   case upAfterPut id e uw _ _ _ =>
     rcases upAfterIndex_spec { b with g := ttlPut b.g id e } i id uw with ⟨_, h⟩ | ⟨_, _, h⟩ | h <;> rw [h] <;>
@@ -992,6 +1058,8 @@ theorem ctrans_adm {b b' : BState} {i : Nat} (h : CTrans b i b') :
   case getPool hp => rw [poolAdd_frame hp]; simp [finishCall]
   case refPool hp => rw [poolAdd_frame hp]; simp [finishCall]
   case shutLocal hg => rw [hg]; simp [setClient]
+  case mgetStep hg => rw [hg]; simp [setClient]
+  case mgetFin hg => rw [hg]; simp [finishCall]
   case shutKwClear hpc => exact Or.inr ⟨_, hpc, rfl, Or.inr rfl⟩
   case shutWuZero hpc _ => exact Or.inr ⟨_, hpc, rfl, Or.inl rfl⟩
   case upAfterSame => rcases upAfterIndex_spec b i _ _ with ⟨_, h⟩ | ⟨_, _, h⟩ | h <;> rw [h] <;> simp [finishCall, setClient, spotFinish]
@@ -1010,6 +1078,8 @@ theorem ctrans_shutting {b b' : BState} {i : Nat} (h : CTrans b i b') (hs : b.g.
   case getPool hp => rw [poolAdd_frame hp]; simpa [finishCall] using hs
   case refPool hp => rw [poolAdd_frame hp]; simpa [finishCall] using hs
   case shutLocal hg => rw [hg]; simpa [setClient] using hs
+  case mgetStep hg => rw [hg]; simpa [setClient] using hs
+  case mgetFin hg => rw [hg]; simpa [finishCall] using hs
   case upAfterSame => rcases upAfterIndex_spec b i _ _ with ⟨_, h⟩ | ⟨_, _, h⟩ | h <;> rw [h] <;> simpa [finishCall, setClient, spotFinish] using hs
   case upAfterPut id e uw _ _ _ =>
     rcases upAfterIndex_spec { b with g := ttlPut b.g id e } i id uw with ⟨_, h⟩ | ⟨_, _, h⟩ | h <;> rw [h] <;>
@@ -1045,6 +1115,14 @@ theorem ctrans_cl {b b' : BState} {j : Nat} (h : CTrans b j b') :
   case shutLocal pc pc' g' hpc h1 h2 hg =>
     exact ⟨pc, pc', hpc, rfl, fun _ => Or.inr h1, Or.inl ⟨by cases pc <;> simp_all [CPc.afterCas, CPc.isRefPool],
       by cases pc' <;> simp_all [CPc.afterCas, CPc.isRefPool], rfl⟩⟩
+  case mgetStep pc pc' g' hpc h1 h2 hg =>
+    have e1 : pc'.afterCas = false := by clear hg; cases pc' <;> simp_all [CPc.isMget, CPc.afterCas]
+    have e2 : pc.isRefPool = false := by clear hg; cases pc <;> simp_all [CPc.isMget, CPc.isRefPool]
+    have e3 : pc'.isRefPool = false := by clear hg; cases pc' <;> simp_all [CPc.isMget, CPc.isRefPool]
+    exact ⟨pc, pc', hpc, rfl, (by rw [e1]; exact fun h => (by cases h)), Or.inl ⟨e2, e3, rfl⟩⟩
+  case mgetFin pc g' out hpc h1 hg =>
+    have e2 : pc.isRefPool = false := by clear hg; cases pc <;> simp_all [CPc.isMget, CPc.isRefPool]
+    exact ⟨pc, _, hpc, rfl, by simp [CPc.afterCas], Or.inl ⟨e2, rfl, rfl⟩⟩
   case finish pc out hpc hr => exact ⟨_, _, hpc, rfl, by simp [CPc.afterCas], Or.inl ⟨hr, rfl, rfl⟩⟩
   case finishStats pc out st hpc hr => exact ⟨_, _, hpc, rfl, by simp [CPc.afterCas], Or.inl ⟨hr, rfl, rfl⟩⟩
   case spot pc st hpc hr => exact ⟨_, _, hpc, rfl, by simp [CPc.afterCas], Or.inl ⟨hr, rfl, rfl⟩⟩
@@ -1245,6 +1323,14 @@ theorem posInv_ctrans {b b' : BState} {i : Nat} (hi : PosInv b) (h : CTrans b i 
     · trivial
   | shutLocal pc pc' g' hpc _ h2 hg =>
     refine hi.client (pc' := pc') ?_ rfl rfl (by cases pc' <;> simp_all [CPc.afterCas, CPc.pos])
+    show g'.queue = b.g.queue
+    rw [hg]
+  | mgetStep pc pc' g' hpc _ h2 hg =>
+    refine hi.client (pc' := pc') ?_ rfl rfl (by clear hg; cases pc' <;> simp_all [CPc.isMget, CPc.pos])
+    show g'.queue = b.g.queue
+    rw [hg]
+  | mgetFin pc g' out hpc _ hg =>
+    refine hi.client (pc' := .idle) ?_ rfl rfl trivial
     show g'.queue = b.g.queue
     rw [hg]
   | shutStoreClear hpc _ => exact hi.client rfl rfl rfl trivial
@@ -1830,6 +1916,17 @@ theorem idInv_ctrans {b b' : BState} {i : Nat} (hi : IdInv b)
       (by show g'.adm.kw = _; rw [hg]) rfl rfl rfl (by show g'.store = _; rw [hg]) (by show g'.ttl = _; rw [hg])
       (by cases pc' <;> simp_all [CPc.afterCas, CPc.freshId?])
       (fun u h => by cases pc' <;> simp_all [CPc.afterCas, CPc.usedId?])
+      (by show g'.shutting = false → _; rw [hg]; exact fun h => h)
+  | mgetStep pc pc' g' hpc _ h2 hg =>
+    exact hi.clientLocal (pc' := pc') hpc (by show qIds g'.queue = _; rw [hg]) (by show g'.nextId = _; rw [hg])
+      (by show g'.adm.kw = _; rw [hg]) rfl rfl rfl (by show g'.store = _; rw [hg]) (by show g'.ttl = _; rw [hg])
+      (by clear hg; cases pc' <;> simp_all [CPc.isMget, CPc.freshId?])
+      (fun u h => by clear hg; cases pc' <;> simp_all [CPc.isMget, CPc.usedId?])
+      (by show g'.shutting = false → _; rw [hg]; exact fun h => h)
+  | mgetFin pc g' out hpc _ hg =>
+    exact hi.clientLocal (pc' := .idle) hpc (by show qIds g'.queue = _; rw [hg]) (by show g'.nextId = _; rw [hg])
+      (by show g'.adm.kw = _; rw [hg]) rfl rfl rfl (by show g'.store = _; rw [hg]) (by show g'.ttl = _; rw [hg])
+      rfl (fun u h => by cases h)
       (by show g'.shutting = false → _; rw [hg]; exact fun h => h)
   | shutStoreClear hpc _ =>
     exact hi.clientStep hpc rfl rfl rfl rfl rfl rfl
